@@ -1,8 +1,13 @@
 #!/bin/bash
 # Builds the whole Coq development (full .vo build) from the files on disk. Offline.
-set -e
+# A file that fails to build does not stop the others (-k): every check rebuilds the closure of its own
+# Props files and reports a broken file as a broken obligation of the properties that depend on it.
 HERE="$(cd "$(dirname "${BASH_SOURCE[0]}")" && pwd)"
-cd "$HERE/coq"
+cd "$HERE/coq" || exit 1
 { echo "-Q . ONL"; find . -name '*.v' -not -path './Cases/*' | sed 's|^\./||' | sort; } > _CoqProject
-coq_makefile -f _CoqProject -o Makefile
-timeout 3000 make -j16
+coq_makefile -f _CoqProject -o Makefile || exit 1
+timeout 3000 make -k -j16 > "$HERE/.setup.log" 2>&1
+rc=$?
+tail -3 "$HERE/.setup.log"
+if [ $rc -ne 0 ]; then echo "setup: some files did not build (see .setup.log); the checks that need them will say so"; fi
+exit 0
